@@ -7063,6 +7063,13 @@ ZSTD_compressSequences_internal(ZSTD_CCtx* cctx,
         DEBUGLOG(5, "cSize running total: %zu (remaining dstCapacity=%zu)", cSize, dstCapacity);
     }
 
+    /* With explicit delimiters the list is made of blocks : every one of them must have been used.
+     * Blocks described after the end of the source mean that the block lengths disagree with the source. */
+    RETURN_ERROR_IF(cctx->appliedParams.validateSequences
+                 && cctx->appliedParams.blockDelimiters == ZSTD_sf_explicitBlockDelimiters
+                 && seqPos.idx != inSeqsSize,
+                    externalSequences_invalid, "Blocks are described after the end of the source");
+
     DEBUGLOG(4, "cSize final total: %zu", cSize);
     return cSize;
 }
